@@ -173,8 +173,50 @@ def handleLit (args : List String) : Verdict :=
       { agree := ok, propOk := ok, msg := s!"documented: bool={mb} int={mi} float={mf}; got bool={b} int={i} float={f}", tag := "lit" }
   | _ => bad "lit arity"
 
+/-- link resolution: the model splices the raw sub-package trees into the raw calculator tree; the defaults of the real code must be that tree
+    ("every other declared leaf with its default": the leaves declared in linked sub-packages are declared leaves) -/
+def handleLinks (args : List String) : Verdict :=
+  match args with
+  | hc :: rest =>
+    (do
+      let cname ← hstr hc
+      let (raw, r1) ← parseTree rest
+      match r1 with
+      | "|" :: np :: r2 =>
+        let n ← np.toNat?
+        let rec pk : Nat → List String → Option (List (String × PTree) × List String)
+          | 0, r => some ([], r)
+          | j + 1, hf :: r => do
+            let f ← hstr hf
+            let (t, r') ← parseTree r
+            let (ts, r'') ← pk j r'
+            pure ((f, t) :: ts, r'')
+          | _, _ => none
+        let (pkgs, r3) ← pk n r2
+        let nlinks := if anyNode (fun t => t.hasAttr "link") raw then "with-links" else "no-links"
+        let multi := if anyNode (fun t => match t.attr "link" with | some l => (linkTokens l).length > 1 | none => false) raw then ":multi-file" else ""
+        let tag : String := s!"links:{nlinks}{multi}"
+        match r3 with
+        | "|" :: "OK" :: r4 =>
+          let (res, r5) ← parseTree r4
+          if !r5.isEmpty then none else
+          match resolveLinks pkgs 60 raw with
+          | some m =>
+            let ok := treeEq m res
+            let msg : String := s!"C11-LINKS {cname}: the defaults of the code differ from the calculator file with its sub-packages spliced in: {firstDiff m res ""}"
+            some ({ agree := ok, propOk := ok, msg := if ok then "" else msg, tag := tag } : Verdict)
+          | none => some ({ agree := false, propOk := true, msg := s!"model cannot resolve the links of {cname} (missing package), the code can", tag := tag } : Verdict)
+        | "|" :: "ERR" :: _ =>
+          match resolveLinks pkgs 60 raw with
+          | some _ => some ({ agree := false, propOk := false, msg := s!"C11-LINKS {cname}: the code refuses a description whose links resolve", tag := tag } : Verdict)
+          | none => some ({ agree := true, propOk := true, msg := "", tag := tag } : Verdict)
+        | _ => none
+      | _ => none).getD (bad "links fields")
+  | _ => bad "links arity"
+
 def handle (args : List String) : Verdict :=
   match args with
+  | "links" :: rest => handleLinks rest
   | "process" :: r => handleProcess r
   | "xml" :: r => handleXml r
   | "lit" :: r => handleLit r
